@@ -1401,10 +1401,16 @@ func (m *Machine) shouldRunInit(pkg *ssa.Package) bool {
 		return true
 	}
 	switch path {
-	case "errors", "io", "encoding/binary", "context", "golang.org/x/sync/errgroup":
-		return true
+	case "runtime", "os", "syscall", "reflect", "unicode", "golang.org/x/text/unicode/norm", "time", "fmt", "sync", "net",
+		"regexp", "regexp/syntax", "internal/cpu", "internal/poll", "crypto/rand", "math/rand", "encoding/json", "log",
+		"internal/godebug", "internal/reflectlite", "crypto/sha256", "crypto/sha512", "crypto/internal/boring":
+		return false
 	}
-	return false
+	if strings.HasPrefix(path, "github.com/") || strings.HasPrefix(path, "go.uber.org/") || strings.HasPrefix(path, "google.golang.org/") ||
+		strings.HasPrefix(path, "internal/") || strings.HasPrefix(path, "runtime/") || strings.HasPrefix(path, "vendor/") {
+		return false
+	}
+	return true
 }
 
 func (m *Machine) initPackage(pkg *ssa.Package) {
